@@ -1,5 +1,4 @@
 package main
 
 func answerOracle(c *Ctx, kind string, args []string) string { return "0" }
-func workerMain(args []string)                                {}
 func sitesMain(args []string)                                 {}
